@@ -799,6 +799,511 @@ Proof.
   exists (LayoutEx.doc alg_exc [alg_enveloped; alg_enveloped; alg_exc] LayoutEx.C []). repeat split; vm_compute; reflexivity.
 Qed.
 
+(* ================================================================ 2. attribute order *)
+(* an attribute that may move: unprefixed and not a declaration (ID, Version, IssueInstant, Destination, InResponseTo, ...) *)
+Definition movable (a : attr) : bool := (at_space a =?s "") && negb (at_key a =?s "xmlns").
+Definition fixed_part (l : list attr) : list attr := filter (fun a => negb (movable a)) l.
+(* the attribute lists of one element in the two layouts: the same, or a permutation that SortedAttrs.Less can undo
+   (sort_total) and that keeps the relative order of declarations and prefixed attributes *)
+Definition arel (a a' : list attr) : Prop :=
+  a = a' \/ (Permutation a a' /\ fixed_part a' = fixed_part a /\ sort_total a = true).
+
+(* the two layouts of a tree: elements whose tag is Signature (in any name space) are left alone, with all they contain *)
+Fixpoint po (n n' : node) {struct n} : Prop :=
+  match n, n' with
+  | Elem sp tg a k, Elem sp' tg' a' k' =>
+      sp = sp' /\ tg = tg' /\
+      if tg =?s "Signature" then a = a' /\ k = k'
+      else arel a a' /\
+           (fix go (l l' : list node) {struct l} : Prop :=
+              match l, l' with
+              | [], [] => True
+              | x :: r, x' :: r' => po x x' /\ go r r'
+              | _, _ => False
+              end) k k'
+  | Elem _ _ _ _, _ => False
+  | other, other' => other = other'
+  end.
+Fixpoint po_kids (l l' : list node) : Prop :=
+  match l, l' with
+  | [], [] => True
+  | x :: r, x' :: r' => po x x' /\ po_kids r r'
+  | _, _ => False
+  end.
+Lemma po_elem sp tg a k sp' tg' a' k' :
+  po (Elem sp tg a k) (Elem sp' tg' a' k') <->
+  sp = sp' /\ tg = tg' /\ if tg =?s "Signature" then a = a' /\ k = k' else arel a a' /\ po_kids k k'.
+Proof.
+  cbn [po]. assert (E : forall l l', (fix go (l l' : list node) {struct l} : Prop :=
+              match l, l' with
+              | [], [] => True
+              | x :: r, x' :: r' => po x x' /\ go r r'
+              | _, _ => False
+              end) l l' <-> po_kids l l').
+  { induction l as [|x r IH]; intros [|x' r']; cbn [po_kids]; try tauto; rewrite IH; tauto. }
+  destruct (tg =?s "Signature"); [tauto|]. specialize (E k k'). tauto.
+Qed.
+
+Lemma po_refl : forall n, po n n.
+Proof.
+  fix IH 1. intros [sp tg a k| | | | ]; try reflexivity. apply po_elem. split; [reflexivity|]. split; [reflexivity|].
+  destruct (tg =?s "Signature"); [split; reflexivity|]. split; [left; reflexivity|].
+  induction k as [|x r IHr]; [exact I|]. split; [apply IH | exact IHr].
+Qed.
+Lemma po_kids_refl l : po_kids l l.
+Proof. induction l as [|x r IH]; [exact I | split; [apply po_refl | exact IH]]. Qed.
+
+Lemma po_nonelem n n' : is_elem n = false -> po n n' -> n' = n.
+Proof. destruct n; try discriminate; intros _ H; cbn in H; symmetry; exact H. Qed.
+Lemma po_is_elem n n' : po n n' -> is_elem n' = is_elem n.
+Proof. destruct n, n'; cbn; intros H; try contradiction; try discriminate H; reflexivity. Qed.
+
+(* sub-contexts read the declarations only, in their order *)
+Lemma sub_context_fixed : forall a ctx, sub_context ctx a = sub_context ctx (fixed_part a).
+Proof.
+  induction a as [|x r IH]; intros ctx; [reflexivity|]. unfold fixed_part. cbn [filter]. unfold movable at 1.
+  cbn [sub_context].
+  destruct (at_space x =?s "xmlns") eqn:S1.
+  - apply String.eqb_eq in S1. rewrite S1. cbn [String.eqb Ascii.eqb Bool.eqb andb negb]. cbn [sub_context]. rewrite S1. cbn [String.eqb Ascii.eqb Bool.eqb].
+    destruct ((at_key x =?s "xml") && negb (at_val x =?s XMLNamespace)); [reflexivity|].
+    destruct (at_key x =?s "xmlns"); [reflexivity|]. apply IH.
+  - destruct (at_space x =?s "") eqn:S2; cbn [andb negb].
+    + destruct (at_key x =?s "xmlns") eqn:K; cbn [negb andb].
+      * cbn [sub_context]. rewrite S1, S2, K. cbn [andb]. destruct (at_val x =?s XMLNSNamespace); [reflexivity|]. apply IH.
+      * apply IH.
+    + cbn [sub_context]. rewrite S1, S2. cbn [andb]. apply IH.
+Qed.
+Lemma sub_ctx_arel ctx a a' : arel a a' -> sub_ctx ctx a' = sub_ctx ctx a.
+Proof.
+  intros [->|(_ & F & _)]; [reflexivity|]. unfold sub_ctx. rewrite (sub_context_fixed a'), (sub_context_fixed a), F. reflexivity.
+Qed.
+Ltac po_cases n n' H :=
+  destruct n as [?sp ?tg ?a ?k| | | | ], n' as [?sp' ?tg' ?a' ?k'| | | | ]; cbn [po] in H; try contradiction; try discriminate H.
+
+Lemma po_attrs_ctx n n' ctx : po n n' -> sub_ctx ctx (attrs_of n') = sub_ctx ctx (attrs_of n).
+Proof.
+  intros H. po_cases n n' H; try reflexivity.
+  change (po (Elem sp tg a k) (Elem sp' tg' a' k')) in H. apply po_elem in H. destruct H as (_ & _ & H). cbn [attrs_of].
+  destruct (tg =?s "Signature"); [destruct H as [-> _]; reflexivity | apply sub_ctx_arel; apply H].
+Qed.
+Lemma po_space_tag n n' : po n n' -> space_of n' = space_of n /\ tag_of n' = tag_of n.
+Proof.
+  intros H. po_cases n n' H; try (injection H as <-; split; reflexivity); try (split; reflexivity).
+  destruct H as (E1 & E2 & _). subst. split; reflexivity.
+Qed.
+Lemma po_kids_of n n' : po n n' -> po_kids (kids_of n) (kids_of n').
+Proof.
+  intros H. po_cases n n' H; try exact I.
+  change (po (Elem sp tg a k) (Elem sp' tg' a' k')) in H. apply po_elem in H. destruct H as (_ & _ & H). cbn [kids_of].
+  destruct (tg =?s "Signature"); [destruct H as [_ ->]; apply po_kids_refl | apply H].
+Qed.
+Lemma po_signature_eq n n' : po n n' -> tag_of n = "Signature" -> n' = n.
+Proof.
+  intros H T. po_cases n n' H; try (symmetry; exact H).
+  change (po (Elem sp tg a k) (Elem sp' tg' a' k')) in H. apply po_elem in H. cbn [tag_of] in T. subst tg.
+  destruct H as (E1 & E2 & E3 & E4). subst. reflexivity.
+Qed.
+
+Definition po_res (r1 r2 : res (node * nat * option found_sig)) : Prop :=
+  match r1 with
+  | Err e => r2 = Err e
+  | Ok (e1, l, o) => exists e1', r2 = Ok (e1', l, o) /\ po e1 e1'
+  end.
+Lemma po_res_refl r : po_res r r.
+Proof. destruct r as [[[e l] o]|e]; cbn; [exists e; split; [reflexivity | apply po_refl] | reflexivity]. Qed.
+
+Lemma find_child_loop_po ctx' ns tag : forall ks ks' i lim, po_kids ks ks' ->
+  match find_child_loop ctx' ns tag ks i lim with
+  | Err e => find_child_loop ctx' ns tag ks' i lim = Err e
+  | Ok (None, l) => find_child_loop ctx' ns tag ks' i lim = Ok (None, l)
+  | Ok (Some (j, k), l) => exists k', find_child_loop ctx' ns tag ks' i lim = Ok (Some (j, k'), l) /\ po k k'
+  end.
+Proof.
+  induction ks as [|x r IH]; intros [|x' r'] i lim H; try contradiction; [reflexivity|].
+  destruct H as [Hx Hr].
+  destruct (is_elem x) eqn:EX.
+  - pose proof (po_attrs_ctx x x' ctx' Hx) as EC. destruct (po_space_tag x x' Hx) as [ES ET].
+    pose proof (po_is_elem x x' Hx) as EX'. rewrite EX in EX'.
+    destruct x as [sp tg a k| | | | ]; try discriminate EX. destruct x' as [sp' tg' a' k'| | | | ]; try discriminate EX'.
+    cbn [attrs_of space_of tag_of] in *. subst sp' tg'. cbn [find_child_loop].
+    destruct lim as [|lim']; [reflexivity|]. rewrite EC.
+    destruct (sub_ctx ctx' a) as [c2|e]; [|reflexivity]. cbn [bind].
+    destruct (lookup_prefix c2 sp) as [nsv|]; [|reflexivity].
+    destruct ((nsv =?s ns) && (tg =?s tag)).
+    + eexists. split; [reflexivity | exact Hx].
+    + apply IH. exact Hr.
+  - rewrite (po_nonelem x x' EX Hx). destruct x; try discriminate EX; cbn [find_child_loop]; apply IH; exact Hr.
+Qed.
+
+Lemma fh_po id ctx p el el' lim : po el el' -> po_res (fh id ctx p el lim) (fh id ctx p el' lim).
+Proof.
+  intros H. unfold fh, find_wrap. rewrite (po_attrs_ctx el el' ctx H). destruct (po_space_tag el el' H) as [-> ->].
+  destruct (sub_ctx ctx (attrs_of el)) as [c2|e]; [|reflexivity]. cbn [bind].
+  destruct (lookup_prefix c2 (space_of el)); [|reflexivity].
+  destruct (tag_of el =?s "Signature") eqn:T.
+  - apply String.eqb_eq in T. rewrite (po_signature_eq el el' H T). apply po_res_refl.
+  - rewrite andb_false_r. cbn [po_res]. exists el'. split; [reflexivity | exact H].
+Qed.
+
+Section PoSim.
+  Variable h : nsctx -> list nat -> node -> nat -> res (node * nat * option found_sig).
+  Hypothesis h_po : forall ctx p el el' lim, po el el' -> po_res (h ctx p el lim) (h ctx p el' lim).
+
+  Lemma mkids_po trav
+        (Htrav : forall ctx p el el' lim, po el el' -> po_res (trav ctx p el lim) (trav ctx p el' lim)) :
+    forall ks ks' ctx' p i lim, po_kids ks ks' ->
+      match mkids trav ctx' p ks i lim with
+      | Err e => mkids trav ctx' p ks' i lim = Err e
+      | Ok (ks1, l1, o) => exists ks1', mkids trav ctx' p ks' i lim = Ok (ks1', l1, o) /\ po_kids ks1 ks1'
+      end.
+  Proof.
+    induction ks as [|x r IH]; intros [|x' r'] ctx' p i lim H; try contradiction.
+    - cbn [mkids]. exists []. split; [reflexivity | exact I].
+    - destruct H as [Hx Hr]. destruct (is_elem x) eqn:EX.
+      + pose proof (po_is_elem x x' Hx) as EX'. rewrite EX in EX'.
+        assert (M : forall y rr, is_elem y = true -> mkids trav ctx' p (y :: rr) i lim =
+                    do t <- trav ctx' (p ++ [i]) y lim;
+                    match t with
+                    | (k', lim', Some f) => Ok (k' :: rr, lim', Some f)
+                    | (k', lim', None) => do t2 <- mkids trav ctx' p rr (S i) lim'; match t2 with (r', lim'', f) => Ok (k' :: r', lim'', f) end
+                    end) by (intros y rr Hy; destruct y; try discriminate Hy; reflexivity).
+        rewrite (M x r EX), (M x' r' EX'). clear M.
+        pose proof (Htrav ctx' (p ++ [i]) x x' lim Hx) as T. unfold po_res in T.
+        destruct (trav ctx' (p ++ [i]) x lim) as [[[k1 l1] o1]|e]; [|rewrite T; reflexivity]. cbn [bind].
+        destruct T as (k1' & -> & Pk). cbn [bind]. destruct o1 as [f|].
+        * exists (k1' :: r'). split; [reflexivity | split; assumption].
+        * specialize (IH r' ctx' p (S i) l1 Hr).
+          destruct (mkids trav ctx' p r (S i) l1) as [[[r1 l2] o]|e]; [|rewrite IH; reflexivity]. cbn [bind].
+          destruct IH as (r1' & -> & Pr). cbn [bind]. exists (k1' :: r1'). split; [reflexivity | split; assumption].
+      + rewrite (po_nonelem x x' EX Hx).
+        assert (M : forall rr, mkids trav ctx' p (x :: rr) i lim =
+                    do t2 <- mkids trav ctx' p rr (S i) lim; match t2 with (r', lim'', f) => Ok (x :: r', lim'', f) end)
+          by (intros rr; destruct x; try discriminate EX; reflexivity).
+        rewrite !M. clear M. specialize (IH r' ctx' p (S i) lim Hr).
+        destruct (mkids trav ctx' p r (S i) lim) as [[[r1 l2] o]|e]; [|rewrite IH; reflexivity]. cbn [bind].
+        destruct IH as (r1' & -> & Pr). cbn [bind]. exists (x :: r1'). split; [reflexivity | split; [apply po_refl | exact Pr]].
+  Qed.
+
+  Lemma mtraverse_po : forall fuel ctx p el el' lim, po el el' ->
+    po_res (mtraverse h fuel ctx p el lim) (mtraverse h fuel ctx p el' lim).
+  Proof.
+    induction fuel as [|fuel IH]; intros ctx p el el' lim H; [reflexivity|].
+    destruct (is_elem el) eqn:EE; [|rewrite (po_nonelem el el' EE H); apply po_res_refl].
+    pose proof (po_is_elem el el' H) as EE'. rewrite EE in EE'.
+    pose proof (po_attrs_ctx el el' ctx H) as EC.
+    destruct el as [sp tg a k| | | | ]; try discriminate EE. destruct el' as [sp' tg' a' k'| | | | ]; try discriminate EE'.
+    cbn [attrs_of] in EC. cbn [mtraverse].
+    destruct lim as [|lim']; [reflexivity|]. rewrite EC.
+    destruct (sub_ctx ctx a) as [ctx'|e]; [|reflexivity]. cbn [bind].
+    pose proof (h_po ctx' p _ _ lim' H) as T. unfold po_res in T.
+    destruct (h ctx' p (Elem sp tg a k) lim') as [[[el1 lim1] o1]|e]; [|rewrite T; reflexivity]. cbn [bind].
+    destruct T as (el1' & -> & P1). cbn [bind].
+    destruct o1 as [f|]; [cbn [po_res]; exists el1'; split; [reflexivity | exact P1]|].
+    destruct (is_elem el1) eqn:E1.
+    2:{ rewrite (po_nonelem el1 el1' E1 P1). destruct el1; try discriminate E1; cbn [po_res]; eexists; (split; [reflexivity | reflexivity]). }
+    pose proof (po_is_elem el1 el1' P1) as E1'. rewrite E1 in E1'.
+    destruct el1 as [sp1 tg1 a1 k1| | | | ]; try discriminate E1. destruct el1' as [sp1' tg1' a1' k1'| | | | ]; try discriminate E1'.
+    apply po_elem in P1. destruct P1 as (<- & <- & P1).
+    destruct (tg1 =?s "Signature") eqn:TS.
+    - destruct P1 as [<- <-].
+      destruct (mkids (mtraverse h fuel) ctx' p k1 0 lim1) as [[[k2 lim2] o]|e]; cbn [bind po_res]; [|reflexivity].
+      eexists. split; [reflexivity | apply po_refl].
+    - destruct P1 as [PA PK].
+      pose proof (mkids_po (mtraverse h fuel) IH k1 k1' ctx' p 0 lim1 PK) as K.
+      destruct (mkids (mtraverse h fuel) ctx' p k1 0 lim1) as [[[k2 lim2] o]|e]; [|rewrite K; reflexivity]. cbn [bind].
+      destruct K as (k2' & -> & PK2). cbn [bind po_res]. eexists. split; [reflexivity|].
+      apply po_elem. split; [reflexivity|]. split; [reflexivity|]. rewrite TS. split; assumption.
+  Qed.
+End PoSim.
+
+Lemma po_kids_nth : forall l l' i, po_kids l l' ->
+  match nth_error l i with
+  | Some k => exists k', nth_error l' i = Some k' /\ po k k'
+  | None => nth_error l' i = None
+  end.
+Proof.
+  induction l as [|x r IH]; intros [|x' r'] i H; try contradiction; [destruct i; reflexivity|].
+  destruct H as [Hx Hr]. destruct i as [|j]; cbn [nth_error]; [exists x'; split; [reflexivity | exact Hx] | apply IH; exact Hr].
+Qed.
+Lemma po_kids_remove : forall l l' i, po_kids l l' -> po_kids (remove_nth i l) (remove_nth i l').
+Proof.
+  induction l as [|x r IH]; intros [|x' r'] i H; try contradiction; [destruct i; exact I|].
+  destruct H as [Hx Hr]. destruct i as [|j]; cbn [remove_nth po_kids]; [exact Hr | split; [exact Hx | apply IH; exact Hr]].
+Qed.
+Lemma po_kids_replace : forall l l' i k k', po_kids l l' -> po k k' -> po_kids (replace_nth i k l) (replace_nth i k' l').
+Proof.
+  induction l as [|x r IH]; intros [|x' r'] i k k' H Hk; try contradiction; [destruct i; exact I|].
+  destruct H as [Hx Hr]. destruct i as [|j]; cbn [replace_nth po_kids]; [split; assumption | split; [exact Hx | apply IH; assumption]].
+Qed.
+
+Lemma parent_ctx_po : forall p n n' c, po n n' -> parent_ctx c n' p = parent_ctx c n p.
+Proof.
+  induction p as [|i q IH]; intros n n' c H; [reflexivity|]. cbn [parent_ctx]. rewrite (po_attrs_ctx n n' c H).
+  destruct (sub_ctx c (attrs_of n)) as [c'|e]; [|reflexivity]. cbn [bind].
+  pose proof (po_kids_nth _ _ i (po_kids_of n n' H)) as N.
+  destruct (nth_error (kids_of n) i) as [k|]; [|rewrite N; reflexivity]. destruct N as (k' & -> & Pk). apply IH. exact Pk.
+Qed.
+Lemma node_at_po : forall p n n', po n n' ->
+  match node_at n p with
+  | Some s => exists s', node_at n' p = Some s' /\ po s s'
+  | None => node_at n' p = None
+  end.
+Proof.
+  induction p as [|i q IH]; intros n n' H; cbn [node_at]; [exists n'; split; [reflexivity | exact H]|].
+  pose proof (po_kids_nth _ _ i (po_kids_of n n' H)) as N.
+  destruct (nth_error (kids_of n) i) as [k|]; [|rewrite N; reflexivity]. destruct N as (k' & -> & Pk). apply IH. exact Pk.
+Qed.
+
+Lemma remove_at_path_po : forall p n n', po n n' ->
+  match remove_at_path n p with
+  | Some b => exists b', remove_at_path n' p = Some b' /\ po b b'
+  | None => remove_at_path n' p = None
+  end.
+Proof.
+  induction p as [|i q IH]; intros n n' H; [reflexivity|].
+  destruct (is_elem n) eqn:EE; [|rewrite (po_nonelem n n' EE H); destruct (remove_at_path n (i :: q)) as [b|]; [exists b; split; [reflexivity | apply po_refl] | reflexivity]].
+  pose proof (po_is_elem n n' H) as EE'. rewrite EE in EE'.
+  destruct n as [sp tg a k| | | | ]; try discriminate EE. destruct n' as [sp' tg' a' k'| | | | ]; try discriminate EE'.
+  apply po_elem in H. destruct H as (<- & <- & H).
+  destruct (tg =?s "Signature") eqn:TS.
+  { destruct H as [<- <-]. destruct (remove_at_path (Elem sp tg a k) (i :: q)) as [b|]; [exists b; split; [reflexivity | apply po_refl] | reflexivity]. }
+  destruct H as [PA PK]. cbn [remove_at_path].
+  pose proof (po_kids_nth _ _ i PK) as N.
+  destruct (nth_error k i) as [c|]; [|rewrite N; reflexivity]. destruct N as (c' & -> & Pc).
+  destruct (is_elem c) eqn:EC; [|rewrite (po_nonelem c c' EC Pc); destruct c; try discriminate EC; reflexivity].
+  pose proof (po_is_elem c c' Pc) as EC'. rewrite EC in EC'.
+  destruct c as [csp ctg ca ck| | | | ]; try discriminate EC. destruct c' as [csp' ctg' ca' ck'| | | | ]; try discriminate EC'.
+  destruct q as [|j q'].
+  - eexists. split; [reflexivity|]. apply po_elem. split; [reflexivity|]. split; [reflexivity|]. rewrite TS.
+    split; [exact PA | apply po_kids_remove; exact PK].
+  - specialize (IH _ _ Pc). destruct (remove_at_path (Elem csp ctg ca ck) (j :: q')) as [c2|]; [|rewrite IH; reflexivity].
+    destruct IH as (c2' & -> & P2). eexists. split; [reflexivity|]. apply po_elem. split; [reflexivity|]. split; [reflexivity|]. rewrite TS.
+    split; [exact PA | apply po_kids_replace; assumption].
+Qed.
+
+Lemma apply_transforms_po : forall ts p el el' c, po el el' ->
+  match apply_transforms ts p el c with
+  | Err e => apply_transforms ts p el' c = Err e
+  | Ok (x, c') => exists x', apply_transforms ts p el' c = Ok (x', c') /\ po x x'
+  end.
+Proof.
+  induction ts as [|t r IH]; intros p el el' c H; [cbn [apply_transforms]; exists el'; split; [reflexivity | exact H]|].
+  rewrite !apply_transforms_step. destruct (tr_alg t =?s alg_enveloped).
+  - pose proof (remove_at_path_po p el el' H) as R. destruct (remove_at_path el p) as [b|]; [|rewrite R; reflexivity].
+    destruct R as (b' & -> & Pb). apply IH. exact Pb.
+  - destruct (c14n_of t); [apply IH; exact H | reflexivity].
+Qed.
+
+Lemma sort_attrs_arel a a' : arel a a' -> sort_attrs a' = sort_attrs a.
+Proof. intros [->|(P & _ & T)]; [reflexivity | apply sort_attrs_perm; assumption]. Qed.
+
+Lemma po_is_comment x x' : po x x' -> is_comment x' = is_comment x.
+Proof. intros H. po_cases x x' H; try reflexivity; congruence. Qed.
+
+Lemma canonical_prep_po : forall n n' seen c, po n n' -> canonical_prep seen c n' = canonical_prep seen c n.
+Proof.
+  fix IH 1. intros n n' seen c H.
+  destruct (is_elem n) eqn:EE; [|rewrite (po_nonelem n n' EE H); reflexivity].
+  pose proof (po_is_elem n n' H) as EE'. rewrite EE in EE'.
+  destruct n as [sp tg a k| | | | ]; try discriminate EE. destruct n' as [sp' tg' a' k'| | | | ]; try discriminate EE'.
+  apply po_elem in H. destruct H as (<- & <- & H).
+  destruct (tg =?s "Signature"); [destruct H as [<- <-]; reflexivity|]. destruct H as [PA PK].
+  rewrite !canonical_prep_elem, (sort_attrs_arel a a' PA). f_equal.
+  generalize (snd (prep_attrs (sort_attrs a) seen)) as s. intros s. clear EE EE' PA. revert k' PK.
+  induction k as [|x r IHr]; intros [|x' r'] PK; try contradiction; [reflexivity|].
+  destruct PK as [Px Pr]. cbn [cprep_kids]. rewrite (po_is_comment x x' Px), (IH x x' s c Px), (IHr r' Pr). reflexivity.
+Qed.
+
+Lemma canon_model_po a n n' : inclusive a = true -> po n n' -> canon_model a n' = canon_model a n.
+Proof.
+  intros I P. unfold canon_model, canon_prep. destruct a; try discriminate I; rewrite (canonical_prep_po n n' _ _ P); reflexivity.
+Qed.
+
+Theorem find_signature_po root root' : po root root' -> id_of root' = id_of root ->
+  match find_signature root with
+  | Err e => find_signature root' = Err e
+  | Ok (r1, f) => exists r1', find_signature root' = Ok (r1', f) /\ po r1 r1'
+  end.
+Proof.
+  intros H EI. unfold find_signature. rewrite EI.
+  pose proof (mtraverse_po (fh (id_of root)) (fh_po (id_of root)) (S traversal_limit) default_ctx [] root root' traversal_limit H) as T.
+  unfold fh in T. unfold po_res in T.
+  destruct (mtraverse (find_wrap ds_ns "Signature" (inspect (id_of root))) (S traversal_limit) default_ctx [] root traversal_limit) as [[[r1 l1] o1]|e].
+  - destruct T as (r1' & -> & P1). cbn [no_missing bind]. destruct o1 as [f|]; [|reflexivity]. exists r1'. split; [reflexivity | exact P1].
+  - rewrite T. destruct e; reflexivity.
+Qed.
+
+Section ValidatePo.
+  Variable digest : string -> string -> option string.
+  Variable sig_ok : cert -> string -> string -> string -> bool.
+  Variable parse_cert : string -> option cert.
+  Variable reparse : string -> option node.
+
+  Lemma canonical_signed_info_po r1 r1' f : po r1 r1' ->
+    canonical_signed_info canon_model r1' f = canonical_signed_info canon_model r1 f.
+  Proof.
+    intros P. unfold canonical_signed_info. f_equal. rewrite (parent_ctx_po _ _ _ default_ctx P).
+    destruct (parent_ctx default_ctx r1 (fs_path f)) as [pc|e]; [|reflexivity]. cbn [bind].
+    pose proof (node_at_po (fs_path f) _ _ P) as N.
+    destruct (node_at r1 (fs_path f)) as [s|]; [|rewrite N; reflexivity]. destruct N as (s' & -> & Ps).
+    unfold find_one_child. rewrite (po_attrs_ctx s s' pc Ps).
+    destruct (sub_ctx pc (attrs_of s)) as [c'|e]; [|reflexivity]. cbn [bind].
+    pose proof (find_child_loop_po c' ds_ns "SignedInfo" _ _ 0 traversal_limit (po_kids_of s s' Ps)) as F.
+    destruct (find_child_loop c' ds_ns "SignedInfo" (kids_of s) 0 traversal_limit) as [[[[j k]|] l]|e].
+    - destruct F as (k' & -> & _). reflexivity.
+    - rewrite F. reflexivity.
+    - rewrite F. reflexivity.
+  Qed.
+
+  Lemma validate_signature_po r1 r1' f c : po r1 r1' -> id_of r1' = id_of r1 ->
+    (forall r, picked_reference_at reparse r1 f = Ok r -> inclusive (effective_alg r) = true) ->
+    validate_signature canon_model digest sig_ok reparse r1' f c = validate_signature canon_model digest sig_ok reparse r1 f c.
+  Proof.
+    intros P EI S. unfold validate_signature.
+    destruct (sg_signed_info (fs_sig f)) as [sinfo|]; [|reflexivity].
+    rewrite (canonical_signed_info_po r1 r1' f P). unfold picked_reference_at in S.
+    destruct (canonical_signed_info canon_model r1 f) as [si_bytes|e]; [|reflexivity]. cbn [bind] in *.
+    destruct (negb (mem_str (si_sig_alg sinfo) known_sig_methods)); [reflexivity|].
+    destruct (sg_value (fs_sig f)) as [data|]; [|reflexivity].
+    destruct (base64_decode data) as [raw|]; [|reflexivity].
+    destruct (negb (sig_ok c (si_sig_alg sinfo) si_bytes raw)); [reflexivity|].
+    destruct (reparse si_bytes) as [sin|]; [|reflexivity].
+    destruct (unmarshal_signed_info sin) as [sinfo2|e]; [|reflexivity]. cbn [bind] in *. rewrite EI.
+    destruct (pick_reference (id_of r1) (si_refs sinfo2)) as [r|]; [|reflexivity].
+    destruct (base64_decode (ref_digest_value r)) as [want|]; [|reflexivity].
+    specialize (S r eq_refl). unfold transform.
+    pose proof (apply_transforms_po (ref_transforms r) (fs_path f) r1 r1' None P) as T.
+    destruct (apply_transforms (ref_transforms r) (fs_path f) r1 None) as [[el c']|e] eqn:AT; [|rewrite T; reflexivity].
+    destruct T as (el' & -> & Pel). cbn [bind fst snd].
+    apply apply_transforms_alg in AT. unfold effective_alg in S. rewrite <- AT in S.
+    rewrite (canon_model_po _ el el' S Pel). reflexivity.
+  Qed.
+
+  Lemma find_signature_id root r1 f : find_signature root = Ok (r1, f) -> id_of r1 = id_of root.
+  Proof.
+    intros F. destruct (find_signature_sound _ _ _ F) as (ctx0 & e0 & e1 & _ & _ & Her & _). apply id_of_erase. exact Her.
+  Qed.
+
+  (* (2) the verdict under a permutation of unprefixed attributes outside Signature elements *)
+  Theorem validation_ignores_attribute_order store now root1 root2 :
+    po root1 root2 -> id_of root2 = id_of root1 ->
+    (forall r, picked_reference reparse root1 = Ok r -> inclusive (effective_alg r) = true) ->
+    dsig_validate canon_model digest sig_ok parse_cert reparse store now root2 =
+    dsig_validate canon_model digest sig_ok parse_cert reparse store now root1.
+  Proof.
+    intros P EI S. unfold dsig_validate, validate_res. unfold picked_reference in S.
+    pose proof (find_signature_po root1 root2 P EI) as F.
+    destruct (find_signature root1) as [[r1 f]|e] eqn:F1; [|rewrite F; reflexivity].
+    destruct F as (r1' & F2 & P1). rewrite F2. cbn [bind fst snd] in *.
+    destruct (no_missing (verify_certificate parse_cert store now (fs_sig f))) as [c|e]; [|reflexivity]. cbn [bind].
+    rewrite (validate_signature_po r1 r1' f c P1); [reflexivity | | exact S].
+    rewrite (find_signature_id _ _ _ F1), (find_signature_id _ _ _ F2). exact EI.
+  Qed.
+End ValidatePo.
+
+(* the premise on the ID attribute: enough that at most one attribute of the root has the local name ID *)
+Lemma filter_length_perm {A} (f : A -> bool) l l' : Permutation l l' -> List.length (filter f l') = List.length (filter f l).
+Proof.
+  intros P. induction P as [|x l l' P IH|x y l|l l' l'' P1 IH1 P2 IH2]; [reflexivity | | | congruence].
+  - cbn [filter]. destruct (f x); cbn [List.length]; congruence.
+  - cbn [filter]. destruct (f x), (f y); reflexivity.
+Qed.
+Lemma select_attr_perm key : forall a a', Permutation a a' ->
+  (List.length (filter (fun x => at_key x =?s key) a) <= 1)%nat -> select_attr key a' = select_attr key a.
+Proof.
+  intros a a' P. induction P as [|x l l' P IH|x y l|l l' l'' P1 IH1 P2 IH2]; intros U.
+  - reflexivity.
+  - cbn [select_attr filter] in *. destruct (at_key x =?s key); [reflexivity|]. apply IH. exact U.
+  - cbn [select_attr filter] in *. destruct (at_key x =?s key), (at_key y =?s key); try reflexivity. cbn [List.length] in U. lia.
+  - rewrite IH2, IH1; [reflexivity | exact U|].
+    rewrite (filter_length_perm _ _ _ P1). exact U.
+Qed.
+
+Module LayoutEx2.
+  Import LayoutEx.
+  Definition PA (p k v : string) : attr := {| at_space := p; at_key := k; at_val := v |}.
+  (* reference canonicalised with c14n 1.1; [flip]: unprefixed attributes of Root and Item moved *)
+  Definition trs := [alg_enveloped; alg_c11].
+  Definition doc2 (root_attrs item_attrs : list attr) : node :=
+    Elem "s" "Root" root_attrs
+      [Elem "s" "Issuer" [] [Text "idp"]; signature_el alg_exc trs [] [];
+       Elem "s" "Item" item_attrs [Text "hello"]; Text "!"].
+  Definition ra1 := [A "ID" "x"; NS "s" "urn:s"; A "Version" "2.0"; PA "xml" "lang" "en"].
+  Definition ra2 := [A "Version" "2.0"; NS "s" "urn:s"; PA "xml" "lang" "en"; A "ID" "x"].
+  Definition ia1 := [A "b" "1"; A "a" "2"].
+  Definition ia2 := [A "a" "2"; A "b" "1"].
+  Definition base2 := doc2 ra1 ia1.
+  Definition si_b := match obs_si_bytes canon_model base2 with Ok b => b | Err _ => "?" end.
+  Definition reparse0 (b : string) : option node :=
+    if b =?s si_b
+    then Some (match signed_info_el alg_exc trs [] with
+               | Elem sp tg attrs kids => Elem sp tg (NS "ds" ds_ns :: attrs) kids
+               | other => other end)
+    else None.
+  Definition body_b := match obs_ref_bytes canon_model reparse0 base2 with Ok b => b | Err _ => "??" end.
+  Definition reparse2 (b : string) : option node := if b =?s body_b then Some verified else reparse0 b.
+  Definition digest2 (alg bytes : string) : option string := if bytes =?s body_b then Some digest20 else Some "00000000000000000000".
+  Definition sig_ok2 (c : cert) (alg msg sg : string) : bool := (c_der c =?s "DER") && (msg =?s si_b) && (sg =?s "sig").
+  Definition run2 (root : node) :=
+    dsig_validate canon_model digest2 sig_ok2 parse_cert reparse2 [the_cert] {| i_sec := 150; i_nsec := 0 |} root.
+
+  Lemma po_doc2 ra ra' ia ia' : arel ra ra' -> arel ia ia' -> po (doc2 ra ia) (doc2 ra' ia').
+  Proof.
+    intros R I0. unfold doc2. apply po_elem. split; [reflexivity|]. split; [reflexivity|]. cbn [String.eqb Ascii.eqb Bool.eqb].
+    split; [exact R|]. cbn [po_kids]. split; [apply po_refl|]. split; [apply po_refl|]. split; [|split; [reflexivity | exact I]].
+    apply po_elem. split; [reflexivity|]. split; [reflexivity|]. cbn [String.eqb Ascii.eqb Bool.eqb].
+    split; [exact I0 | apply po_kids_refl].
+  Qed.
+  Lemma arel_ra : arel ra1 ra2.
+  Proof.
+    right. split; [|split; vm_compute; reflexivity]. unfold ra1, ra2.
+    apply Permutation_cons_app with (l1 := [A "Version" "2.0"; NS "s" "urn:s"; PA "xml" "lang" "en"]) (l2 := []).
+    cbn [app]. apply perm_swap.
+  Qed.
+  Lemma arel_ia : arel ia1 ia2.
+  Proof. right. split; [apply perm_swap | split; vm_compute; reflexivity]. Qed.
+
+  Example attributes_moved :
+    po base2 (doc2 ra2 ia2) /\ base2 <> doc2 ra2 ia2 /\ id_of (doc2 ra2 ia2) = id_of base2 /\
+    (forall r, picked_reference reparse2 base2 = Ok r -> inclusive (effective_alg r) = true) /\
+    run2 base2 = DOk verified /\ run2 (doc2 ra2 ia2) = DOk verified.
+  Proof.
+    split; [apply po_doc2; [exact arel_ra | exact arel_ia]|]. split; [intros H; discriminate H|]. split; [reflexivity|].
+    split; [intros r H; vm_compute in H; injection H as <-; vm_compute; reflexivity|]. split; vm_compute; reflexivity.
+  Qed.
+
+  (* the root carries ID and p:ID: SortedAttrs.Less tells them apart, the canonical bytes are the same in both orders, but
+     root.SelectAttr("ID") takes the FIRST attribute whose local name is ID *)
+  Definition rb1 := [A "ID" "x"; PA "p" "ID" "y"; NS "s" "urn:s"; NS "p" "urn:p"].
+  Definition rb2 := [PA "p" "ID" "y"; A "ID" "x"; NS "s" "urn:s"; NS "p" "urn:p"].
+  Lemma arel_rb : arel rb1 rb2.
+  Proof. right. split; [apply perm_swap | split; vm_compute; reflexivity]. Qed.
+End LayoutEx2.
+
+(* WITHOUT the premise on the ID attribute FALSE of the model (and of goxmldsig: etree's SelectAttr("ID") ignores the
+   prefix): moving ID behind p:ID turns an accepted document into one "without signature" *)
+Theorem validation_attribute_order_matters_for_id_namesakes :
+  exists digest sig_ok parse_cert reparse store now root1 root2 v,
+    po root1 root2 /\ id_of root1 = "x" /\ id_of root2 = "y" /\
+    (forall r, picked_reference reparse root1 = Ok r -> inclusive (effective_alg r) = true) /\
+    canon_model (C11 false) root1 = canon_model (C11 false) root2 /\
+    dsig_validate canon_model digest sig_ok parse_cert reparse store now root1 = DOk v /\
+    dsig_validate canon_model digest sig_ok parse_cert reparse store now root2 = DMissing.
+Proof.
+  pose (b := LayoutEx2.doc2 LayoutEx2.rb1 LayoutEx2.ia1).
+  pose (si := match obs_si_bytes canon_model b with Ok x => x | Err _ => "?" end).
+  pose (rp0 := fun x : string => if x =?s si then LayoutEx2.reparse0 LayoutEx2.si_b else None).
+  pose (bb := match obs_ref_bytes canon_model rp0 b with Ok x => x | Err _ => "??" end).
+  exists (fun _ x => if x =?s bb then Some LayoutEx.digest20 else Some "00000000000000000000"),
+         (fun c _ m s => (c_der c =?s "DER") && (m =?s si) && (s =?s "sig")), LayoutEx.parse_cert,
+         (fun x => if x =?s bb then Some LayoutEx.verified else rp0 x), [LayoutEx.the_cert], {| i_sec := 150; i_nsec := 0 |},
+         b, (LayoutEx2.doc2 LayoutEx2.rb2 LayoutEx2.ia1), LayoutEx.verified.
+  split; [apply LayoutEx2.po_doc2; [exact LayoutEx2.arel_rb | left; reflexivity]|].
+  split; [reflexivity|]. split; [reflexivity|].
+  split; [intros r H; vm_compute in H; injection H as <-; vm_compute; reflexivity|].
+  repeat split; vm_compute; reflexivity.
+Qed.
+
 (* ================================================================ 3. lift to the SAML layer (Response.v over dsig := Dsig.v over canon_model) *)
 Section Saml.
   Variable digest : string -> string -> option string.
@@ -834,3 +1339,29 @@ Section Saml.
     split; [exact E|]. unfold retrieve_assertion_info_tree. rewrite E. reflexivity.
   Qed.
 End Saml.
+
+Section Saml2.
+  Variable digest : string -> string -> option string.
+  Variable sig_ok : cert -> string -> string -> string -> bool.
+  Variable parse_cert : string -> option cert.
+  Variable reparse : string -> option node.
+  Variable decrypt : node -> res node.
+  Variable store : list cert.
+  Notation dsig now := (dsig_validate canon_model digest sig_ok parse_cert reparse store now).
+
+  (* the signed-Response path (what is decoded is the re-parsed canonical form, the same for both layouts) *)
+  Theorem response_ignores_attribute_order cfg now root1 root2 :
+    po root1 root2 -> id_of root2 = id_of root1 ->
+    (forall r, picked_reference reparse root1 = Ok r -> inclusive (effective_alg r) = true) ->
+    cfg_skip_sig cfg = false -> dsig now root1 <> DMissing ->
+    validate_response_tree (dsig now) decrypt cfg now root2 = validate_response_tree (dsig now) decrypt cfg now root1 /\
+    retrieve_assertion_info_tree (dsig now) decrypt cfg now root2 = retrieve_assertion_info_tree (dsig now) decrypt cfg now root1.
+  Proof.
+    intros P EI S K M.
+    assert (E : validate_response_tree (dsig now) decrypt cfg now root2 = validate_response_tree (dsig now) decrypt cfg now root1).
+    { unfold validate_response_tree. rewrite K.
+      rewrite (validation_ignores_attribute_order digest sig_ok parse_cert reparse store now root1 root2 P EI S).
+      destruct (dsig now root1); try reflexivity. congruence. }
+    split; [exact E|]. unfold retrieve_assertion_info_tree. rewrite E. reflexivity.
+  Qed.
+End Saml2.
